@@ -151,6 +151,7 @@ func (h *Header) Encode(body []byte) []byte {
 		h.Property.PacketFragmented = 0 // 不分包
 	} else {
 		//  需要把这个内容分多个包 ???目前感觉没必要 暂时不实现 因为下发的包都比较小
+		h.Property.PacketFragmented = 0 // 没有写分包项 不能保留分包标识
 	}
 	binary.BigEndian.PutUint16(data[2:4], h.Property.encode())
 	if h.ProtocolVersion == consts.JT808Protocol2019 {
